@@ -66,7 +66,7 @@ theorem C16_rect_pts_vertical (a : PaintArgs) (s p1 p2 p3 : Point) (tp : List PS
 def cexRect : SubPath := { start := (0, 0), segs := [.l (0, 1), .l (2, 1), .l (2, 0)], closed := true }
 def cexG : SGState :=
   { ctm := (1, 0, 0, 1, 0, 0), linewidth := 0, dash := none, scolor := none, ncolor := none,
-    sspace := ⟨1, false⟩, nspace := ⟨1, false⟩ }
+    sspace := ⟨"DeviceGray", 1⟩, nspace := ⟨"DeviceGray", 1⟩ }
 
 /-- Proved counter-example to the full statement (replayed on the implementation by
 corpus/C16/open-ltrect-pts-order.json): the rectangle's points come out as `[p0,p3,p2,p1]`. -/
@@ -134,7 +134,7 @@ example : devOk (initSpaces []) ∧ specWf 90 (0, 0, 612, 792) [] exampleProg = 
 def cexProg1 : List SOp :=
   [.m (0, 0), .seg (.l (0, 1)), .seg (.l (2, 1)), .seg (.l (2, 0)), .h, .paint .S false true false false]
 
-/-- Counter-example 2 (pattern colour: the model keeps the stale gray 1/2). -/
+/-- Counter-example 2 (pattern colour: the model keeps `None`, the initial colour of the Pattern space). -/
 def cexProg2 : List SOp :=
   [.gray false (1/2), .cs false "Pattern", .sc .scn false [] (some "P0"), .m (0, 0), .seg (.l (1, 1)),
    .paint .f false false true false]
@@ -149,25 +149,41 @@ theorem C16_shapes_statement_cex : ¬ C16_shapes_statement := by
   revert h2
   decide +kernel
 
-/-- The pattern colour is lost: the model reports the stale colour, the specification the pattern. -/
+/-- The pattern colour is lost: the model reports no colour, the specification the pattern. -/
 theorem C16_pattern_cex :
     (match runPage 0 (0, 0, 612, 792) [] (progTokens cexProg2) with
-      | .ok s => s.map (·.ncolor) | .error _ => []) = [some (.comps [1/2])] ∧
+      | .ok s => s.map (·.ncolor) | .error _ => []) = [none] ∧
     (specPage 0 (0, 0, 612, 792) [] cexProg2).map (·.ncolor) = [some (.pattern "P0" [])] ∧
     specWf 0 (0, 0, 612, 792) [] cexProg2 = true := by
   refine ⟨by decide +kernel, by decide +kernel, by decide +kernel⟩
 
-/-- Counter-example 3 (`/D2 cs 0.25 0.75 sc` in a 2-component DeviceN space: `sc` is ignored). -/
+/-- Counter-example 3 (`/D2 cs 0.25 0.75 sc` in a 2-component DeviceN space: `sc` is ignored, the
+initial colour `(1, 1)` of the space stays). -/
 def cexProg3 : List SOp :=
   [.gray false (1/2), .cs false "D2", .sc .sc false [1/4, 3/4] none, .m (0, 0), .seg (.l (1, 1)),
    .paint .f false false true false]
 
 theorem C16_arity_cex :
     (match runPage 0 (0, 0, 612, 792) [("D2", .devn 2)] (progTokens cexProg3) with
-      | .ok s => s.map (·.ncolor) | .error _ => []) = [some (.comps [1/2])] ∧
+      | .ok s => s.map (·.ncolor) | .error _ => []) = [some (.comps [1, 1])] ∧
     (specPage 0 (0, 0, 612, 792) [("D2", .devn 2)] cexProg3).map (·.ncolor) = [some (.comps [1/4, 3/4])] ∧
     specWf 0 (0, 0, 612, 792) [("D2", .devn 2)] cexProg3 = true := by
   refine ⟨by decide +kernel, by decide +kernel, by decide +kernel⟩
+
+/-! ## Initial colour of a colour space -/
+
+/-- `PDFPageInterpreter._initial_color` is ISO 32000-1 Table 74 for every colour space
+(family name, number of components): 0 …, `0 0 0 1` for DeviceCMYK, 1 … for Separation/DeviceN,
+no colour for Pattern. -/
+theorem C16_initial_colour (sp : Space) : initialColour sp = isoInit sp := initialColour_eq_iso sp
+
+/-- `cs`/`CS` on a known colour space select the space and its ISO initial colour; nothing else changes. -/
+theorem C16_cs_resets_colour (st : IState) (name : String) (sp : CSpace) (h : csLookup st.csmap name = some sp) :
+    ∃ st', call .cs [.name name] st = .ok st' ∧ st'.gs.ncolor = isoInit sp ∧ st'.gs.ncs = sp.n ∧
+      st'.gs.scolor = st.gs.scolor ∧ st'.gs.linewidth = st.gs.linewidth ∧ st'.gs.dash = st.gs.dash ∧
+      st'.ctm = st.ctm ∧ st'.curpath = st.curpath ∧ st'.out = st.out := by
+  refine ⟨doSelectSpace st false sp, by simp [call, h], ?_⟩
+  simp [doSelectSpace, setColourOpt, setSpace, initialColour_eq_iso]
 
 /-! ## Tables regenerated from the Python source agree with ISO 32000-1 -/
 
